@@ -94,11 +94,18 @@ mod phases {
     macro_rules! respond {
         ($request:ident, $method:path, $doctx:expr) => {{
             let (params, response) = $request.split();
-            let args = serde_json::from_value(params)?;
-            let result = $method($doctx, args)
-                .await
-                .wrap_err("Cannot process request")?;
-            response.into_result_response(result)
+            match serde_json::from_value(params) {
+                Ok(args) => {
+                    let result = $method($doctx, args)
+                        .await
+                        .wrap_err("Cannot process request")?;
+                    response.into_result_response(result)
+                }
+                Err(err) => response.into_error_response(ResponseError::new(
+                    ErrorCode::InvalidParams,
+                    err.to_string(),
+                )),
+            }
         }};
     }
 
@@ -122,11 +129,18 @@ mod phases {
                 Message::Request(request) => {
                     let response: Response = if request.method.as_str() == Initialize::METHOD {
                         let (params, response) = request.split();
-                        let params = serde_json::from_value(params)?;
-                        let result = ls.initialize(params);
-                        let response = response.into_result_response(result);
-                        iotx.send(Message::Response(response)).await?;
-                        break;
+                        match serde_json::from_value(params) {
+                            Ok(params) => {
+                                let result = ls.initialize(params);
+                                let response = response.into_result_response(result);
+                                iotx.send(Message::Response(response)).await?;
+                                break;
+                            }
+                            Err(err) => response.into_error_response(ResponseError::new(
+                                ErrorCode::InvalidParams,
+                                err.to_string(),
+                            )),
+                        }
                     } else {
                         let (_, response) = request.split();
                         response.into_error_response(ResponseError::new(
